@@ -2,12 +2,15 @@
 # Re-runs every stored seed against the check of its own property (scratch copy
 # of /repo per seed) and records the outcome in the seed's meta.json
 # (confirmed.caught_by_checks), which thorough.sh uses as its must-fail corpus.
+# usage: recheck_seeds.sh [parallelism, default 3]
 cd /verif
-for d in seeded/*/; do
-  name=$(basename $d); prop=${name%%-*}
-  if ! (cd /repo && git apply --check /verif/$d/patch.diff 2>/dev/null); then echo "$name: patch does not apply to the current tree (skipped)"; continue; fi
-  if ./selftest/run_mutant.sh $d/patch.diff $prop >/tmp/recheck.$$ 2>&1; then res=caught; else res=missed; fi
-  echo "$name: $res $(grep -m1 VIOLATION /tmp/recheck.$$ | sed 's/.*obligation=//' | cut -c1-120)"
+par=${1:-3}
+one() {
+  d=$1; name=$(basename $d); prop=${name%%-*}
+  if ! (cd /repo && git apply --check /verif/$d/patch.diff 2>/dev/null); then echo "$name: patch does not apply to the current tree (skipped)"; return; fi
+  tmp=$(mktemp /var/tmp/recheck.XXXXXX)
+  if ./selftest/run_mutant.sh $d/patch.diff $prop >$tmp 2>&1; then res=caught; else res=missed; fi
+  echo "$name: $res $(grep -m1 VIOLATION $tmp | sed 's/.*obligation=//' | cut -c1-120)"
   python3 - "$d/meta.json" "$prop" "$res" <<'PY'
 import json,sys
 p,prop,res=sys.argv[1:4]
@@ -18,5 +21,7 @@ else: cb.discard(prop)
 c['caught_by_checks']=sorted(cb)
 json.dump(m,open(p,'w'),indent=1)
 PY
-done
-rm -f /tmp/recheck.$$
+  rm -f $tmp
+}
+export -f one
+ls -d seeded/*/ | sed 's|/$||' | xargs -P $par -I{} bash -c 'one {}'
